@@ -39,6 +39,7 @@ inductive Err
   | nonCanonical | stringTooLong | paramOutOfOrder | tooLongSVCBValue
   | notStarted | sectionDone
   | fuel
+  | panic
   deriving DecidableEq, Repr, Inhabited
 
 deriving instance DecidableEq for Except
@@ -54,6 +55,7 @@ def Err.tag : Err → String
   | .paramOutOfOrder => "ParamOutOfOrder" | .tooLongSVCBValue => "TooLongSVCBValue"
   | .notStarted => "NotStarted" | .sectionDone => "SectionDone"
   | .fuel => "MODEL-FUEL"
+  | .panic => "MODEL-PANIC"
 
 /-! ## Constants (tied to the Go source by `Gen/C36.lean`) -/
 def typeA : Nat := 1
